@@ -196,7 +196,11 @@ def check_read_int(run, rule):
         # is the loop reached for this ai?
         r = minieval.run_straightline(st, dict(env), enums, stop_at=lp)
         if r[0] != "reached" and not any(x is lp for x in ir.walk(r[1] or {})):
-            run.ob(rule, key, False, f, lp["l"], "additional information %d does not reach the byte-assembly loop (%s)" % (ai, r[0]))
+            if r[0] == "unknown":
+                run.ob(rule, key, None, f, lp["l"], "the argument is assembled on more than one path (a branch on run-time state precedes the loop); "
+                       "the width rule only understands the single byte-by-byte loop")
+            else:
+                run.ob(rule, key, False, f, lp["l"], "additional information %d does not reach the byte-assembly loop (%s)" % (ai, r[0]))
             continue
         try:
             iv = None
@@ -287,6 +291,8 @@ def check_heads(run, rule):
         nm = f["qn"].split("::")[-1]
         if not (nm.startswith("read_") or nm == "skip_item") or nm in ("read_to_buffer", "read_cbor_type", "read_int", "read_string", "read_array"):
             continue
+        if f.get("access", 0) != 0:
+            continue          # private helpers are reached through the public readers checked here
         n += 1
         calls = [callee_name(c) for c in ir.calls_in(f["body"]) if (c.get("callee") or {}).get("cls") == DEC]
         first = calls[0] if calls else None
@@ -299,8 +305,85 @@ def check_heads(run, rule):
     run.floor(rule, 9, "public readers")
 
 
+def check_values(run, rule):
+    """R07.6 small value-semantics table: read_negative = -1 - n, read_bool table, read_break, read_integer dispatch."""
+    facts = run.facts
+    cb = {e["n"]: e["v"] for e in facts.enum("CDNS::CborType")["enumerators"]}
+    rn = dfn(facts, "read_negative", rule)
+    rets = [n for n in ir.walk(rn["body"]) if n.get("k") == "Return" and n.get("e") is not None]
+    ok = False
+    if len(rets) == 1:
+        e = unwrap_all_casts(rets[0]["e"])
+        if isinstance(e, dict) and e.get("k") == "Bin" and e.get("op") == "-":
+            # `-1 - n` is evaluated in uint64_t (n is unsigned): -1 appears as 2^64-1 after the usual conversions
+            ok = str(const_value(e["lhs"])) in ("-1", str((1 << 64) - 1)) and callee_qn(unwrap_all_casts(e["rhs"])) == "CDNS::CdnsDecoder::read_int"
+    run.ob(rule, "read_negative:-1-n", ok, rn, rn["line"], "negative integer decoded as -1 - n" if ok else "read_negative does not return -1 - read_int(ai)")
+    rb = dfn(facts, "read_bool", rule)
+    rc = [c for c in ir.calls_in(rb["body"]) if callee_qn(c) == "CDNS::CdnsDecoder::read_cbor_type"]
+    if len(rc) == 1:
+        tvar, avar = path_str(path(rc[0]["args"][0])), path_str(path(rc[0]["args"][1]))
+        table = {}
+        for ai in range(32):
+            env = {tvar: cb["SIMPLE"], avar: ai}
+            r = minieval.run_straightline(ir.stmts(rb["body"]), env, facts.enums)
+            if r[0] == "throw":
+                table[ai] = "throw"
+            elif r[0] == "return":
+                try:
+                    table[ai] = minieval.ev(unwrap(r[1]["e"]), env, facts.enums)
+                except minieval.Unknown:
+                    table[ai] = "?"
+            else:
+                table[ai] = r[0]
+        want = {ai: ("throw" if ai not in (20, 21) else (1 if ai == 21 else 0)) for ai in range(32)}
+        ok = table == want
+        bad = {k: v for k, v in table.items() if want[k] != v}
+        run.ob(rule, "read_bool:simple-20/21", ok, rb, rb["line"],
+               "simple value 20 -> false, 21 -> true, every other simple value rejected" if ok else "read_bool decodes simple values as %s" % bad)
+    else:
+        run.ob(rule, "read_bool:simple-20/21", None, rb, rb["line"], "read_cbor_type call not found")
+    rk = dfn(facts, "read_break", rule)
+    rc = [c for c in ir.calls_in(rk["body"]) if callee_qn(c) == "CDNS::CdnsDecoder::read_cbor_type"]
+    if len(rc) == 1:
+        tvar, avar = path_str(path(rc[0]["args"][0])), path_str(path(rc[0]["args"][1]))
+        acc = []
+        for tname, tv in cb.items():
+            if tname == "BREAK":
+                continue
+            for ai in range(32):
+                r = minieval.run_straightline(ir.stmts(rk["body"]), {tvar: tv, avar: ai}, facts.enums)
+                if r[0] != "throw":
+                    acc.append((tname, ai))
+        ok = acc == [("SIMPLE", 31)]
+        run.ob(rule, "read_break:only-0xFF", ok, rk, rk["line"], "read_break accepts exactly the stop code" if ok else "read_break accepts %s" % acc[:5])
+    ri = dfn(facts, "read_integer", rule)
+    sws = [n for n in ir.walk(ri["body"]) if n.get("k") == "Switch"]
+    disp = {}
+    if len(sws) == 1:
+        for labels, stmts_, falls, line in consumption.case_groups(sws[0]):
+            calls = [callee_name(c) for s_ in stmts_ for c in ir.calls_in(s_) if (c.get("callee") or {}).get("cls") == DEC]
+            throws = any(x.get("k") == "Throw" for s_ in stmts_ for x in ir.walk(s_))
+            for l in labels:
+                if l[0] == "case":
+                    er = ir.enum_ref(l[2])
+                    disp[er[1] if er else l[1]] = calls[0] if calls else ("throw" if throws else None)
+                else:
+                    disp["default"] = "throw" if throws else (calls[0] if calls else None)
+    ok = disp.get("UNSIGNED") == "read_unsigned" and disp.get("NEGATIVE") == "read_negative" and disp.get("default") == "throw"
+    run.ob(rule, "read_integer:dispatch", ok, ri, ri["line"], "unsigned -> read_unsigned, negative -> read_negative, anything else rejected" if ok else "read_integer dispatch is %s" % disp)
+    run.floor(rule, 4, "value-semantics table")
+
+
 def check(run):
     check_skip(run, "R07.1", "R07.3")
     check_stop_agreement(run, "R07.2")
     check_read_int(run, "R07.4")
     check_heads(run, "R07.5")
+    check_values(run, "R07.6")
+    from .. import ranges
+    for f in decoder.dec_fns(run.facts):
+        seen = {}
+        for node, ok, txt in ranges.check_function(f, run.facts.enums):
+            base = "%s:%s" % (f["qn"].split("::")[-1], show(node)[:50])
+            seen[base] = seen.get(base, 0) + 1
+            run.ob("R07.7", base if seen[base] == 1 else "%s#%d" % (base, seen[base]), ok, f, node.get("l", 0), txt)
